@@ -7,6 +7,8 @@ from .. import paths
 from ..core import FUNC, call_attr, calls_in, const, dotted, is_const, kwarg, norm, text, walk_local
 
 EXPLANATION = [
+    "C11.gate-argument: every read_value / write_value call of the GATT server's handlers passes the handler's own `bearer` parameter as the link to check.",
+    'C11.absent-accessor: AttributeValue / AttributeValueV2 .read and .write raise on every path on which the accessor function is None (the access is refused, never answered as a success).',
     'C11.permissions-writers: `.permissions` of an attribute is assigned only in Attribute.__init__, from the constructor argument (directly or through Permissions.from_string): nothing clears requirement bits afterwards.',
     'C11.except-name: no name bound by `except ... as name` is read after its handler: Python deletes it when the handler ends, so the read raises UnboundLocalError exactly when the exception was caught.',
     "C11.authenticated-source: every assignment to a connection's `authenticated` flag in bumble.device derives from the strength of the key in use (pairing method, key's authenticated flag, link-key type) or is guarded by such a test; BR/EDR-only sites are named exceptions. OPEN FINDINGS on the current tree: Device.on_pairing and the LE branch of Device.on_connection_encryption_change assign True unconditionally.",
@@ -443,7 +445,71 @@ def permissions_writers(ctx):
     R.check(n >= 2, rule, 'bumble.att, bumble.gatt | writers of .permissions', f'{n} assignments, all in Attribute.__init__ from the argument', f'only {n} assignments found')
 
 
+def absent_accessor(ctx):
+    """A dynamic value without a read (write) function refuses the access by raising: Attribute.read_value / write_value turn
+    that into an Error Response.  Returning instead discloses an (empty) value of an attribute that is not readable."""
+    R, p = ctx.r, ctx.p
+    rule = 'C11.absent-accessor'
+    n = 0
+    for cn in ('bumble.att.AttributeValue', 'bumble.att.AttributeValueV2'):
+        ci = p.cls(cn)
+        if ci is None:
+            R.bad(rule, cn, 'anchor missing')
+            continue
+        for mname, slot in (('read', 'self._read'), ('write', 'self._write')):
+            fn = ci.methods.get(mname)
+            if fn is None:
+                R.bad(rule, f'{cn}.{mname}', 'anchor missing')
+                continue
+            n += 1
+            bad = []
+
+            class D(paths.Domain):
+                def assume(self, atom, truth, v):
+                    if isinstance(atom, ast.Compare) and norm(atom.left) == slot and isinstance(atom.ops[0], (ast.Is, ast.IsNot)) and norm(atom.comparators[0]) == 'None':
+                        return ('absent' if (isinstance(atom.ops[0], ast.Is) == truth) else 'present',)
+                    if norm(atom) == slot:
+                        return ('present' if truth else 'absent',)
+                    return (v,)
+            res = paths.run(fn, D(), 'unknown')
+            seen_absent = False
+            for k, st in res.items():
+                for v, w in st.items():
+                    if v == 'absent':
+                        seen_absent = True
+                        if not k.startswith('raise'):
+                            bad.append(f'{k} via {" ".join(w)}')
+                    if v == 'unknown' and not k.startswith('raise'):
+                        bad.append(f'{slot} is used untested ({k})')
+            R.check(seen_absent and not bad, rule, f'{cn}.{mname}', f'raises when {slot} is None', f'{mname}() returns although there is no {mname} function ({bad[:1]}): a non-{"read" if mname == "read" else "writ"}able dynamic value is answered as if the access had succeeded (an empty value disclosed / a write acknowledged) instead of an Error Response', p.loc(fn))
+    R.check(n == 4, rule, 'bumble.att | dynamic value accessors', '4 accessors', f'{n} found')
+
+
+def gate_argument(ctx):
+    """The permission gate decides on the link the request came in on: every handler of the GATT server passes its own
+    `bearer` to Attribute.read_value / write_value (a derived object may be None, which the gate takes for "no link to
+    check")."""
+    R, p = ctx.r, ctx.p
+    rule = 'C11.gate-argument'
+    ci = p.cls(SRV)
+    if ci is None:
+        R.bad(rule, SRV, 'anchor missing')
+        return
+    n = 0
+    for name, fn in sorted(ci.methods.items()):
+        params = [a.arg for a in fn.args.args]
+        for c in [x for x in calls_in(fn) if call_attr(x) in ('read_value', 'write_value')]:
+            if 'bearer' not in params:
+                continue
+            n += 1
+            a0 = c.args[0] if c.args else None
+            R.check(isinstance(a0, ast.Name) and a0.id == 'bearer', rule, f'{SRV}.{name} | {call_attr(c)}', 'the handler\'s bearer', f'{name} calls {call_attr(c)}({norm(a0) if a0 is not None else ""}, ...) instead of passing its bearer: when that object is None (or is not the link of the request) the encryption / authentication requirements of the attribute are skipped and a protected value is disclosed or changed', p.loc(c))
+    R.check(n >= 9, rule, f'{SRV} | gate calls', f'{n} calls', f'only {n} calls found')
+
+
 RULES = [
+    ('C11.gate-argument', gate_argument),
+    ('C11.absent-accessor', absent_accessor),
     ('C11.permissions-writers', permissions_writers),
     ('C11.except-name', except_name_rule),
     ('C11.authenticated-source', authenticated_source),
